@@ -280,6 +280,40 @@ func (r *Rot) HmacInfo() []byte {
 	return r.Info
 }
 
+// Payload types that implement SEVERAL of the optional interfaces at once: a rotation payload that also has an event id
+// (RotateWrapper + EventWrapperInfo; the two share HmacSalt / HmacInfo), through pointer and through value receivers, and one that
+// is Taggable on top.  A rotation payload is a rotation payload: consumed, the filter rotated, nothing forwarded.
+type RotEwi struct {
+	W    wrapping.Wrapper
+	Salt []byte
+	Info []byte
+	ID   string
+}
+
+func (r *RotEwi) Wrapper() wrapping.Wrapper { return r.W }
+func (r *RotEwi) HmacSalt() []byte          { return r.Salt }
+func (r *RotEwi) HmacInfo() []byte          { return r.Info }
+func (r *RotEwi) EventId() string           { return r.ID }
+
+type RotEwiV struct {
+	W    wrapping.Wrapper
+	Salt []byte
+	Info []byte
+	ID   string
+}
+
+func (r RotEwiV) Wrapper() wrapping.Wrapper { return r.W }
+func (r RotEwiV) HmacSalt() []byte          { return r.Salt }
+func (r RotEwiV) HmacInfo() []byte          { return r.Info }
+func (r RotEwiV) EventId() string           { return r.ID }
+
+type RotEwiT struct {
+	RotEwi
+	Sec string `class:"secret"`
+}
+
+func (r *RotEwiT) Tags() ([]encrypt.PointerTag, error) { return nil, nil }
+
 // RotV: RotateWrapper through VALUE receivers - a rotation payload handed over by value (and by pointer)
 type RotV struct {
 	W    wrapping.Wrapper
